@@ -268,7 +268,11 @@ func (w *worker) run(job *Job, timeout time.Duration) (res *Result, crashed bool
 			if (exitErr != nil && strings.Contains(exitErr.Error(), "signal: killed")) ||
 				strings.Contains(stderrText, "fatal error: runtime: out of memory") ||
 				strings.Contains(stderrText, "fatal error: out of memory") ||
-				strings.Contains(stderrText, "runtime: cannot allocate memory") {
+				strings.Contains(stderrText, "runtime: cannot allocate memory") ||
+				strings.Contains(stderrText, "SIGQUIT: quit") || (exitErr != nil && strings.Contains(exitErr.Error(), "signal: terminated")) {
+				// (SIGQUIT/SIGTERM from outside: an operator, like the SIGQUIT that
+				// hit a worker of the seed-31 thorough sweep while another job was
+				// being debugged)
 				// SIGKILL cannot come from the code under test: it is the kernel's
 				// out-of-memory killer (the sandbox has no memory limit and the
 				// scratch trees live in tmpfs) or an operator. Resource exhaustion
